@@ -182,7 +182,14 @@ def run(sc, res):
         if any(path.endswith(s) or (s.endswith("<") and s in path) for s in suffixes):
             names.append(f.__name__)
             for (st, v, ctl) in res["outs"]:
-                f(c, a, st, v)
+                try:
+                    f(c, a, st, v)
+                except (AttributeError, TypeError, KeyError, IndexError) as ex:
+                    # the outcome contains a value the analysis only summarised (unknown call result): this clause
+                    # can neither be confirmed nor refuted on this path
+                    c.ob("ENS", f"declared result shape ({f.__name__})",
+                         f"not applicable to a summarised value: {type(ex).__name__}: {ex}", False, st,
+                         actual=("v", "top:unknown"))
     res["spec"] = names
 
 
@@ -1935,6 +1942,12 @@ def lax_delete_edges(c, a, st, v):
         c.teq(st, f"delete_edges: pending unifications untouched ({i})", h1.f["quotient"].items[i].t, h0.f["quotient"].items[i].t)
     if f.ty == LOH:
         same_interfaces(c, st, p, f, "delete_edges")
+    e0, a0, e1, a1 = h0.f["edges"].t, h0.f["adjacency"].t, h1.f["edges"].t, h1.f["adjacency"].t
+    if not (e1 == e0 and a1 == a0):
+        ok = e1[0] == "sel" and a1[0] == "sel" and e1[1] == e0 and a1[1] == a0 and e1[2] == a1[2]
+        c.ob("ENS", "delete_edges: labels and incidence lists are kept in step (both are the sub-lists selected by one mask)",
+             f"edges' ≡ sel(edges, M) and adjacency' ≡ sel(adjacency, M): got {show_term(e1)[:120]} / {show_term(a1)[:120]}",
+             ok, st, actual=(e1, a1))
     c.ob("ENS", "delete_edges: never grows", "len(edges') <= len(edges)",
          st.ge(t_len(h0.f["edges"].t), t_len(h1.f["edges"].t)) or imprecise(h1.f["edges"].t), st)
 
